@@ -384,7 +384,13 @@ func mutateStream(r *rng.R, s []sitem, n int) ([]sitem, []string) {
 			if r.P(1, 2) && s[i].act == 0 && s[i].cid < 1000 {
 				// the genuine block is withheld; instead a block under an identity multihash whose payload is the link's digest
 				s[i].blk = 3000 + s[i].cid
-				tags = append(tags, "mut:identity-digest-block")
+				if r.P(1, 2) {
+					// ... and the metadata entry names that identity CID too: a well-formed message about another link
+					s[i].cid = s[i].blk
+					tags = append(tags, "mut:identity-digest-link")
+				} else {
+					tags = append(tags, "mut:identity-digest-block")
+				}
 			} else {
 				s[i].blk = 1000 + r.Intn(3)
 				tags = append(tags, "mut:forged")
